@@ -146,9 +146,15 @@ def check_C07(tier, seed):
             s = scen.antiamp_script(r, len(scripts), fate_vec=v)
             scripts.append(s)
     scripts += [scen.antiamp_script(r, len(scripts) + i) for i in range(n_rand)]
-    mcs = [("AntiAmp.tla", "MC_AntiAmp.cfg")]
+    # the front door as a decision table (what is answered at all, and how large): extension, DESIGN 0.8;
+    # TLC enumerates all ordered pairs of datagram kinds, each pair arrives a few milliseconds apart
+    pairs, gst2 = V.gen("SeqGen.tla", "SeqGen_dispatch2.cfg", "C07d")
+    for pr in sample(pairs, len(pairs) if not quick else 784, r):
+        scripts.append(scen.dispatch_script(r, len(scripts), labels=list(pr) + list(pr)[::-1]))
+    scripts += [scen.dispatch_script(r, len(scripts) + i) for i in range(300 if quick else 4000)]
+    mcs = [("AntiAmp.tla", "MC_AntiAmp.cfg"), ("Dispatch.tla", "MC_Dispatch.cfg")]
     return generic("C07", tier, seed, mcs, scripts,
-                   [("antiamp", "AntiAmpTrace.tla", "AntiAmpTrace.cfg")],
+                   [("antiamp", "AntiAmpTrace.tla", "AntiAmpTrace.cfg"), ("dispatch", "DispatchTrace.tla", "DispatchTrace.cfg")],
                    ["bytes received are counted by the harness network (wire size of datagrams routed to the connection), not by quinn",
                     "an address counts as validated for the spec only after the harness saw a processed Handshake packet or PATH_RESPONSE from it, or a token validated at accept",
                     "ledger of an address restarts when the connection installs a new path generation for it"],
@@ -401,7 +407,8 @@ def replay_C01(scripts):
 
 
 def replay_C07(scripts):
-    return generic("C07", "quick", 0, [], scripts, [("antiamp", "AntiAmpTrace.tla", "AntiAmpTrace.cfg")], [], shards=1)
+    return generic("C07", "quick", 0, [], scripts, [("antiamp", "AntiAmpTrace.tla", "AntiAmpTrace.cfg"),
+                                                     ("dispatch", "DispatchTrace.tla", "DispatchTrace.cfg")], [], shards=1)
 
 
 def replay_C04(scripts):
